@@ -2,9 +2,11 @@
 //@@ extract file=acts/src/scheduler/state.rs item="enum TaskState" name=TaskState
 //@@ opt structural
 //@@ end
+//@@ ifndef HAVE_MESSAGE_STATE
 //@@ extract file=acts/src/event/message.rs item="enum MessageState" name=MessageState
 //@@ opt structural
 //@@ end
+//@@ endif
 
 // ---- oracle: the stage partition of property C02, written from the statement
 pub open spec fn st_created(s: TaskState) -> bool { s is Ready || s is Pending || s is Interrupt }
